@@ -14,7 +14,7 @@ SEQ_NOTE = ("Trusted: the reference model (DESIGN.md Appendix A, every 'may' lis
 CHECKS = {
  "C01": dict(engine="seq+sched", cat="model_checking", ref="§4 C01, §2.3",
    technique="explicit-state BFS over command histories executing the real decode/handle/encode path, reference model in lock-step",
-   text="Every command history up to the depth bound over a 2-key alphabet (empty/binary/limit-sized values, flag extremes, TTLs, clock steps, flush, CAS stores that match and that are rejected, both eviction policies) is executed on the real code; after every command the responses and the full store dump are compared with the reference model (value, flags, CAS, key isolation, nothing lost). Second part (E1): one client's store-then-get on its key against every schedule of another client working on a different key (same and other shard) or reading the same key, all initial states, checked by linearizability.",
+   text="Every command history up to the depth bound over a 2-key alphabet (empty/binary/limit-sized values, flag extremes, TTLs, clock steps, flush, CAS stores that match and that are rejected, both eviction policies) is executed on the real code; after every command the responses and the full store dump are compared with the reference model (value, flags, CAS, key isolation, nothing lost). Second part (E1): one client's store-then-get on its key against every schedule of another client working on a different key (same and other shard) or reading the same key, all initial states, checked by linearizability. Third part: opaque-independence differential - every history on two stores driven with different opaques, responses (modulo the echoed opaque) and stores equal after every command. Every sequential check also explores the quick alphabets of the other eight sequential properties under its own clauses (cross-alphabet pass).",
    note=SEQ_NOTE),
  "C02": dict(engine="seq", cat="model_checking", ref="§4 C02, §2.3",
    technique="explicit-state BFS over CAS histories on the real code with a token-uniqueness/iff oracle",
@@ -30,7 +30,7 @@ CHECKS = {
    note=SEQ_NOTE),
  "C07": dict(engine="seq", cat="model_checking", ref="§4 C07, §2.3",
    technique="explicit-state BFS over counter histories on the real code with a u64 arithmetic oracle",
-   text="All histories up to the bound over 13 stored texts (u64 extremes, leading zeros, signs, blanks, empty, non-UTF-8) x delta/initial/expiration/CAS extremes; oracle: (v+d) mod 2^64, max(v-d,0), 8-byte BE response, stored decimal text, flags kept, creation/0xffffffff rule, non-numeric = 0x06 and unchanged; zero-padded texts of 20, 21 and 40 characters; quiet incr/decr (errors still answered).",
+   text="All histories up to the bound over 13 stored texts (u64 extremes, leading zeros, signs, blanks, empty, non-UTF-8) x delta/initial/expiration/CAS extremes; oracle: (v+d) mod 2^64, max(v-d,0), 8-byte BE response, stored decimal text, flags kept, creation/0xffffffff rule, non-numeric = 0x06 and unchanged; zero-padded texts of 20, 21 and 40 characters; quiet incr/decr (errors still answered). Second part: the opaque-independence differential (two stores, different opaques, equal responses modulo the opaque and equal stores).",
    note=SEQ_NOTE),
  "C08": dict(engine="seq+sched", cat="model_checking", ref="§4 C08, §2.3",
    technique="explicit-state BFS over delete/flush histories on 3 keys on the real code against the exact-removal model",
@@ -53,11 +53,11 @@ CHECKS.update({
    note=SCHED_NOTE),
  "C14": dict(engine="seq+sched", cat="model_checking", ref="§4 C14, §2.2, §2.3",
    technique="explicit-state BFS over histories with every eviction victim enumerated (RNG seam) + stateless DFS over all schedules of concurrent stores, bound checked on the dump",
-   text="Sequential: all histories up to the bound under RandomPolicy with limits {10,34,60,100,(200)} where every victim index is a branch; after every command sum(record sizes) <= L + last written record and the written record is present. Concurrent: 2-3 storing clients (also 2x2), all schedules up to the preemption bound and all victims: at rest sum <= L + sizes of the program's stores, then sequential follow-up stores must keep the strict bound L + one record - with memory pressure during the race (6 racing pairs are listed known findings) and without (limit 400, then fill: holds); deadlock/step-horizon detection gives termination.",
+   text="Sequential: all histories up to the bound under RandomPolicy with limits {10,34,60,100,(200)} where every victim index is a branch; after every command sum(record sizes) <= L + last written record and the written record is present. Concurrent: 2-3 storing clients (also 2x2), all schedules up to the preemption bound and all victims: at rest sum <= L + sizes of the program's stores, then sequential follow-up stores must keep the strict bound L + one record - with memory pressure during the race (6 racing pairs are listed known findings) and without (limit 400, then fill: holds); deadlock/step-horizon detection gives termination. The alphabet includes stores carrying a CAS (matching, and on an absent key); an acknowledged store whose record is missing at once is own-record-evicted.",
    note=SEQ_NOTE + " " + SCHED_NOTE),
  "C15": dict(engine="seq+sched", cat="model_checking", ref="§4 C15, §2.3",
    technique="explicit-state BFS over histories on the real code under RandomPolicy, accounting counter (hook) compared with the dump after every command",
-   text="All histories up to the bound of every command kind on 3 keys under a generous limit: (accounted usage - sum of stored record sizes) must not change in any command, and no live item may disappear while the stored records fit under the limit (behavioural form, limit 130). The unchanged tree drifts at 5 call sites; each (unaccounted record, command) is a listed known finding; drift of any other amount outside the eviction loop is not listed. Second part (E1): programs whose commands account exactly when run alone (deletes, stores under fresh keys, reads): the drift must be unchanged across the concurrent phase under every schedule.",
+   text="All histories up to the bound of every command kind on 3 keys under a generous limit: (accounted usage - sum of stored record sizes) must not change in any command, and no live item may disappear while the stored records fit under the limit (behavioural form, limit 130). The unchanged tree drifts at 5 call sites; each (unaccounted record, command) is a listed known finding; drift of any other amount outside the eviction loop is not listed. Second part (E1): programs whose commands account exactly when run alone (deletes, stores under fresh keys, reads): the drift must be unchanged across the concurrent phase under every schedule. Concurrent families also start from an expired, uncollected item met by two or three clients; the drift clause is signed (over-count: the recorded lazy-expiry drift; under-count: never listed).",
    note=SEQ_NOTE),
  "C16": dict(engine="sched", cat="model_checking", ref="§4 C16, §2.2",
    technique="stateless DFS over all thread schedules of the real store under a controlled scheduler with deadlock (no enabled task) and step-horizon (livelock) detection",
@@ -76,15 +76,15 @@ CHECKS.update({
    note=NET_NOTE),
  "C12": dict(engine="net", cat="model_checking", ref="§4 C12, §2.5",
    technique="exhaustive enumeration of pipelined request streams over all opcodes (depth 2, thorough 3, quit/quitq at every position) on real loopback TCP, validated by the sequential specification",
-   text="Every stream of 1-2 (thorough 3) requests over a 48-element alphabet (incl. oversized set/setq, also delivered in three pieces cut inside the body) (every opcode 0x00-0x24 with hit/miss and success/error operands, loud/quiet, unimplemented, undefined) plus every stream with quit/quitq in the middle, sent in one segment and byte-at-a-time; responses are matched by opaque in order: exactly one per loud known opcode, quiet only on error/hit, quit answered then EOF, quitq EOF without answer, nothing after either executed (final store compared), not even on the next connection (a fresh connection after every stream: one noop, exactly one answer).",
+   text="Every stream of 1-2 (thorough 3) requests over a 48-element alphabet (incl. oversized set/setq, also delivered in three pieces cut inside the body) (every opcode 0x00-0x24 with hit/miss and success/error operands, loud/quiet, unimplemented, undefined) plus every stream with quit/quitq in the middle, sent in one segment and byte-at-a-time; responses are matched by opaque in order: exactly one per loud known opcode, quiet only on error/hit, quit answered then EOF, quitq EOF without answer, nothing after either executed (final store compared), not even on the next connection (a fresh connection after every stream: one noop, exactly one answer). Third delivery mode: one segment followed at once by the client FIN (everything sent is still executed and answered).",
    note=NET_NOTE),
  "C13": dict(engine="net", cat="model_checking", ref="§4 C13, §2.5",
    technique="exhaustive grid limit x body length x opcode x pipeline position x bytes-already-buffered x buffer-pregrown on real loopback TCP against an in-process reference",
-   text="Full grid (limits 1 KiB..4 MiB, L in {limit-1,limit,limit+1,2*limit,limit+200000}, every opcode, first/middle/last, B in {0,1,L/2-1,L/2,L/2+1,L-1,L,all+next}, receive buffer pre-grown or not): the oversized request is answered 0x03 with opcode/opaque echoed, the store equals a run without it, every other request is answered as in that run, L <= limit is never refused for size (stores at limit-1/limit; every opcode 0..0x24 with a small body delivered whole, header first, or last byte late); header shapes of the oversized request: 3-byte, 251-byte, 65535-byte key, 21 extras bytes.",
+   text="Full grid (limits 1 KiB..4 MiB, L in {limit-1,limit,limit+1,2*limit,limit+200000}, every opcode, first/middle/last, B in {0,1,L/2-1,L/2,L/2+1,L-1,L,all+next}, receive buffer pre-grown or not): the oversized request is answered 0x03 with opcode/opaque echoed, the store equals a run without it, every other request is answered as in that run, L <= limit is never refused for size (stores at limit-1/limit; every opcode 0..0x24 with a small body delivered whole, header first, or last byte late); header shapes of the oversized request: 3-byte, 251-byte, 65535-byte key, 21 extras bytes. Two clients inside oversized bodies at once: the one that completes is answered while the other pauses.",
    note=NET_NOTE),
  "C17": dict(engine="net", cat="fault_enumeration", ref="§4 C17, §2.5",
    technique="exhaustive enumeration of connection-lifecycle sequences (13 ending kinds, limits 1..4, length <= limit+2, two ending orders) against the real accept loop/semaphore on loopback TCP with virtual time",
-   text="13 ending kinds (client close, quit, quitq, close mid-request, bad magic, oversized item then close, idle timeout, abortive reset, stall inside a request until the timeout, stall inside an oversized body until the timeout, quit then hang up without reading, quit / quitq with the client keeping its socket open), plus queued clients that leave silently and connections reset before they were accepted. After every open/end event exactly min(open, limit) connections are served; after every history limit+1 fresh probes: exactly limit answered, the extra one as soon as a slot frees; accept loop alive (a refused connection is a violation).",
+   text="13 ending kinds (client close, quit, quitq, close mid-request, bad magic, oversized item then close, idle timeout, abortive reset, stall inside a request until the timeout, stall inside an oversized body until the timeout, quit then hang up without reading, quit / quitq with the client keeping its socket open), plus queued clients that leave silently and connections reset before they were accepted. After every open/end event exactly min(open, limit) connections are served; after every history limit+1 fresh probes: exactly limit answered, the extra one as soon as a slot frees; accept loop alive (a refused connection is a violation). Plus: clients that queue silently behind a full limit for 0..150 s of virtual time while the holders stay active, then send their first request when a slot frees (must be served, in order).",
    note=NET_NOTE),
  "C18": dict(engine="net", cat="fault_enumeration", ref="§4 C18, §2.5",
    technique="exhaustive enumeration of every cut offset of pipelined streams x 7 fault kinds on real loopback TCP with an observer connection, compared with in-process execution of the completed prefix",
@@ -99,15 +99,15 @@ CHECKS.update({
    note="Trusted: the harness profile really has overflow-checks on (profile.dev in mc/Cargo.toml); panic capture via a process-wide hook. " + NET_NOTE),
  "C11": dict(engine="seq", cat="model_checking", ref="§4 C11, §2.3",
    technique="explicit-state BFS over histories of every opcode x every outcome on the real code; every encoded response re-parsed by an independent parser",
-   text="Socket part: pipelined getk of 0.07-1 MB items, read only after the server blocked on the full socket: every frame whole and in order. Sequential part: 62-command alphabet (every opcode, loud and quiet, hit/miss/exists/not-found/too-large/non-numeric, 250-byte and binary keys, opaques 0/0xabad1dea/0xffffffff/0x80000001), all histories to the bound: every response frame has magic 0x81, opcode and opaque echoed, data type 0, status in the table, body length = extras+key+value, 4 extras on hits, key only for getk, 8 bytes for counters, text on errors; exactly one frame per loud request. The same rules are applied to every response of the C12 socket runs.",
+   text="Socket part: pipelined getk of 0.07-1 MB items, read only after the server blocked on the full socket: every frame whole and in order. Sequential part: 62-command alphabet (every opcode, loud and quiet, hit/miss/exists/not-found/too-large/non-numeric, 250-byte and binary keys, opaques 0/0xabad1dea/0xffffffff/0x80000001), all histories to the bound: every response frame has magic 0x81, opcode and opaque echoed, data type 0, status in the table, body length = extras+key+value, 4 extras on hits, key only for getk, 8 bytes for counters, text on errors; exactly one frame per loud request. The same rules are applied to every response of the C12 socket runs. Requests carry vbucket ids 0 / 7 / 0xffff by command index (a reserved field: nothing may depend on it).",
    note=SEQ_NOTE),
  "C19": dict(engine="seq-pair", cat="model_checking", ref="§4 C19, §2.3",
    technique="explicit-state BFS over pairs of real systems (loud run, toggled run); the loud/quiet toggle is part of the alphabet so every subset of positions is covered; every toggled history up to depth 2 (thorough 3) is also sent as pipelined writes to a real TCP server and compared with the in-process run",
-   text="All histories to the bound x every subset of positions switched to quiet: after every command both stores hold identical items (value, flags, expiry) with isomorphic CAS relations; errors identical apart from the opcode, quiet success and quiet get miss silent, quiet hit carries the same payload. TCP part: each clock-free segment of a toggled history is one write (its requests are pipelined in the server's read buffer); received bytes and final store must equal the in-process run of the same history.",
+   text="All histories to the bound x every subset of positions switched to quiet: after every command both stores hold identical items (value, flags, expiry) with isomorphic CAS relations; errors identical apart from the opcode, quiet success and quiet get miss silent, quiet hit carries the same payload. TCP part: each clock-free segment of a toggled history is one write (its requests are pipelined in the server's read buffer); received bytes and final store must equal the in-process run of the same history. A second TCP mode sends the requests one at a time with 45 s of virtual idle time in front of each (below the receive timeout).",
    note=SEQ_NOTE),
  "C20": dict(engine="cfg", cat="exploration", ref="§4 C20, §2.6",
    technique="exhaustive configuration-grid enumeration: one real memcrsd process (built from /repo, hooks off) per CLI configuration, identical programs, transcript comparison",
-   text="Grid runtime-type x threads {1,2,8} x eviction x port x max-item-size x connection-limit (quick: covering subset of 8, thorough: all 96): byte-identical transcripts of the C01/C07 spanning-tree programs across configurations and agreement with the in-process run, item-size and connection limits enforced as configured (8 x limit simultaneous connections), a 1500-item population read back and flushed, one real-time TTL probe per configuration (ttl 4: hit at 0 s and 2.3 s, miss at 5.6 s). Second part: in-process differential BFS, eviction policy none vs random with an unreachable limit, every history of the C01 alphabet (incl. rejected CAS stores) to depth 5-6: byte-identical responses and equal stores.",
+   text="Grid runtime-type x threads {1,2,8} x eviction x port x max-item-size x connection-limit (quick: covering subset of 8, thorough: all 96): byte-identical transcripts of the C01/C07 spanning-tree programs across configurations and agreement with the in-process run, item-size and connection limits enforced as configured (8 x limit simultaneous connections), a 1500-item population read back and flushed, one real-time TTL probe per configuration (ttl 4: hit at 0 s and 2.3 s, miss at 5.6 s). Second part: in-process differential BFS, eviction policy none vs random with an unreachable limit, every history of the C01 alphabet (incl. rejected CAS stores) to depth 5-6: byte-identical responses and equal stores. Connections ending in quit, quitq and a plain close precede the connection-limit probe.",
    note="Trusted: timing enters only as patience (5 s for positive, 300 ms for negative expectations); ./run builds the real memcrsd binary from /repo's working tree (verification feature off) into /verif/mc/target/memcrsd and every configuration is that binary with its CLI arguments; `mc serve` (the statements of memcrsd's main) is only the fallback when MEMCRSD_BIN is unset, and the evidence records which one ran."),
 })
 
